@@ -656,7 +656,10 @@ func writeInformer(sb *strings.Builder, inf openapi.SchemaInformer, depth int) {
 func scriptKinds(kind string) []string {
 	switch kind {
 	case "jschema":
-		return []string{"used", "len", "check", "ast", "example", "openapi", "deref", "rules", "types", "inner", "ensureap", "vany"}
+		// "rules" comes first: the reference asks the rule objects before the schema
+		// has been loaded, a history mostly after - what a rule object reports must
+		// not depend on what the schema it was given to did with it (c10g)
+		return []string{"rules", "used", "len", "check", "ast", "example", "openapi", "deref", "types", "inner", "ensureap", "vany"}
 	case "rschema":
 		return []string{"used", "len", "check", "ast", "pattern", "example", "example", "example", "example", "openapi", "deref"}
 	case "enum":
